@@ -278,6 +278,61 @@ def swap_branches(tree: ast.Module) -> None:
     ast.fix_missing_locations(tree)
 
 
+def shift_powers(tree: ast.Module) -> None:
+    """``2 ** e`` becomes ``1 << e`` (integer exponents in this package: player counts, players, ids)."""
+    for n in ast.walk(tree):
+        if isinstance(n, ast.BinOp) and isinstance(n.op, ast.Pow) and isinstance(n.left, ast.Constant) and n.left.value == 2 and type(n.left.value) is int:
+            n.left = ast.Constant(1)
+            n.op = ast.LShift()
+    ast.fix_missing_locations(tree)
+
+
+class _Rename(ast.NodeTransformer):
+    def __init__(self, mapping: dict) -> None:
+        self.mapping = mapping
+
+    def visit_Name(self, node: ast.Name):
+        if node.id in self.mapping:
+            return ast.copy_location(ast.Name(id=self.mapping[node.id], ctx=node.ctx), node)
+        return node
+
+
+def unroll_list_comprehensions(tree: ast.Module) -> None:
+    """``v = [elt for x in it if c]`` (one generator, simple target, statement level) becomes
+    ``v = []`` + ``for x_: if c: v.append(elt)`` with a fresh loop variable."""
+    counter = [0]
+
+    def rewrite(body: list) -> list:
+        out = []
+        for st in body:
+            for field in ("body", "orelse", "finalbody"):
+                if hasattr(st, field) and isinstance(getattr(st, field), list) and getattr(st, field) and isinstance(getattr(st, field)[0], ast.stmt):
+                    setattr(st, field, rewrite(getattr(st, field)))
+            if isinstance(st, ast.Try):
+                for h in st.handlers:
+                    h.body = rewrite(h.body)
+            if isinstance(st, ast.Assign) and len(st.targets) == 1 and isinstance(st.targets[0], ast.Name) and isinstance(st.value, ast.ListComp) \
+                    and len(st.value.generators) == 1 and isinstance(st.value.generators[0].target, ast.Name) and not st.value.generators[0].is_async:
+                g = st.value.generators[0]
+                counter[0] += 1
+                fresh = f"{g.target.id}_u{counter[0]}"
+                ren = _Rename({g.target.id: fresh})
+                elt = ren.visit(copy.deepcopy(st.value.elt))
+                conds = [ren.visit(copy.deepcopy(c)) for c in g.ifs]
+                app: ast.stmt = ast.Expr(ast.Call(func=ast.Attribute(value=ast.Name(id=st.targets[0].id, ctx=ast.Load()), attr="append", ctx=ast.Load()), args=[elt], keywords=[]))
+                for c in reversed(conds):
+                    app = ast.If(test=c, body=[app], orelse=[])
+                out.append(ast.Assign(targets=[ast.Name(id=st.targets[0].id, ctx=ast.Store())], value=ast.List(elts=[], ctx=ast.Load())))
+                out.append(ast.For(target=ast.Name(id=fresh, ctx=ast.Store()), iter=g.iter, body=[app], orelse=[]))
+            else:
+                out.append(st)
+        return out
+
+    for fn in [n for n in ast.walk(tree) if isinstance(n, ast.FunctionDef)]:
+        fn.body = rewrite(fn.body)
+    ast.fix_missing_locations(tree)
+
+
 def keyword_calls(tree: ast.Module, signatures: dict | None = None) -> None:
     """Calls of package functions / uniquely named package methods pass their arguments by keyword instead of by position.
 
@@ -334,6 +389,8 @@ TREE_TWINS = {"alpha-renaming of all locals in every function": rename_locals,
               "every ordered comparison written the other way round (a <= b as b >= a)": flip_comparisons,
               "every if/else and conditional expression with negated test and swapped branches": swap_branches,
               "arguments of package functions and uniquely named methods passed by keyword": keyword_calls,
+              "every 2 ** e written as 1 << e": shift_powers,
+              "every statement-level list comprehension unrolled into an append loop": unroll_list_comprehensions,
               "assert + logging call inserted at the top of every function": add_asserts,
               "call arguments hoisted into fresh locals in every function": hoist_call_arguments}
 
